@@ -77,6 +77,16 @@ CHECKS = {
    text="Region reconstruction is graph traversal with in-place direction flips: its failures are orderings of entities. For 7 polygonal drawings every cut set of every loop, every permutation and every direction assignment (<=4 entities quick, <=5 thorough: 5.5 M variants) is built and compared with exact closed-path count, shell/hole nesting, area and length; arc drawings are checked for invariance over all orders/directions; (reads)? -> similarity transform -> reads must follow the scaling law, equal a freshly built path and not depend on what was read before; DXF, SVG and dict re-imports must preserve the regions.",
    note="Exactness only for polygonal input (as stated); arcs: invariance and scaling law.",
    design="3.C14"),
+ "C16": dict(level="exploration", engine="E2",
+   technique="exhaustive enumeration of every k-subset of a 3x3x3 lattice (and 4x4 in 2D) with exact integer / Fraction oracles for rank, facet sidedness and the minimal enclosing sphere",
+   text="Hull and bounding-volume code fails on ties (coplanar, cocircular, cospherical points) and on supports of different size; every 4- and 5-subset (6 in thorough) of the 27-point lattice contains all of these and is small enough for exact oracles: affine rank, every input point on the inner side of every hull facet in integer arithmetic, hull watertight / outward by counting, exact AABB, rigid tight centred OBB, containing sphere, minimal sphere by brute force over all 2/3/4-point supports; scaled (1e-3, 1e3) and far-translated (1e6) copies of a fixed residue class, clustered sets, 2D rectangles, and the Geometry3D bounding primitives on lattice meshes.",
+   note="Known findings: minimum_nsphere is not minimal when the support has 2 or 3 points; convex_hull of sets clustered at 1e-7 is left with holes. Cylinder containment to the method's own 1e-4 tolerance.",
+   design="3.C16"),
+ "C18": dict(level="exploration", engine="E2",
+   technique="exhaustive enumeration of every face subset re-wound / removed / subdivided on lattice manifold meshes, oracles by direct counting and exact lattice arithmetic",
+   text="Winding repair is a BFS over face adjacency with a per-body volume test: its failures depend on which subset of faces is wrong and on traversal order, so every one of the 2^F subsets (F <= 12; per body for larger meshes) is re-wound and repaired in both multibody modes with and without normals read beforehand; every single face, pair of faces and quad is removed and refilled; subdivision is run on all faces and on every face subset, size-bounded subdivision over bounds x iteration caps, Loop subdivision twice. Oracles: vertices byte-identical, unoriented triangle multiset, consistent winding and positive volume per body by counting, exact area / volume (dyadic midpoints), Euler number.",
+   note="fill_holes is demanded for triangle / quad holes with simple boundaries on meshes with >= 3 faces (its documented domain).",
+   design="3.C18"),
 }
 
 NA = {}
